@@ -15,7 +15,11 @@ META = {
     "outside": "arithmetic round-trip for >= 7 digit magnitudes outside the listed windows (SAT/SMT back ends did not decide "
                "10 chained 64-bit divisions by ten with > 20 free bits within 100 s)",
     "assumptions": ["malloc never fails in harness allocations (v_alloc assumes non-NULL)",
-                    "uniqueness of decimal representation (digits + Horner value + no leading zero => canonical text)"],
+                    "uniqueness of decimal representation (digits + Horner value + no leading zero => canonical text)",
+                    "mem_replace_arr compares a found pointer with a possibly-NULL pointer using '<' (ISO C undefined, false on every "
+                    "flat-address platform, and the NULL case is re-tested right after): cbmc's 'same object violation' there is "
+                    "ignored in the xml jobs and reported separately in evidence, it is not observable under ASan/UBSan",
+                    "libc models lib/libc_models.h (memchr, memrchr, memmem, explicit_bzero) under CBMC"],
 }
 
 def num_jobs(tier):
@@ -66,5 +70,67 @@ def num_jobs(tier):
                             })
     return out
 
+def b64_jobs(tier):
+    out = []
+    lens = range(0, 7) if tier == "quick" else range(0, 13)
+    for n in lens:
+        for nins in ([0, 2] if tier == "quick" else [0, 1, 2, 4]):
+            if n == 0 and nins:
+                continue
+            enc = 4 * ((n + 2) // 3)
+            out.append({"name": "b64-n%d-j%d" % (n, nins), "src": "b64.c", "defs": {"LEN": n, "NINS": nins},
+                        "unwind": enc + nins + 3, "solver": "cadical",
+                        "shape": "data length %d, %d interleaved non-alphabet bytes at symbolic positions" % (n, nins),
+                        "desc": "encode == RFC 4648 reference; decode(encode(x)) == x; decode_fmt skips junk; reported lengths"})
+    return out
+
+def hex_jobs(tier):
+    out = []
+    for n in (range(1, 5) if tier == "quick" else range(1, 10)):
+        for extra in (0, 1, 3):
+            out.append({"name": "hex-n%d-e%d" % (n, extra), "src": "hex.c", "defs": {"LEN": n, "EXTRA": extra},
+                        "unwind": 2 * n + extra + 3, "solver": "cadical",
+                        "shape": "data length %d, hex capacity 2n+%d" % (n, extra),
+                        "desc": "bin2hex digits, lengths, NUL; hex2bin(bin2hex(x)) == x in either letter case"})
+    return out
+
+def xml_jobs(tier):
+    return [{"name": "xml-n%d-%s" % (n, ("enc", "dec")[mode]), "src": "xml.c", "defs": {"LEN": n, "MODE": mode}, "unwind": 6 * n + 3, "solver": "cadical",
+             "timeout": 600 if tier == "quick" else 1500,
+             "ignore": "(same object violation|pointer relation: .*) in founded\\[",
+             "unwindset": ["mem_replace_arr.0:6", "mem_replace_arr.1:6", "mem_replace_arr.2:6", "mem_replace_arr.3:%d" % (n + 2),
+                           "memmem.0:%d" % (6 * n + 2), "memmem.1:%d" % (6 * n + 2)],
+             "shape": "string of %d bytes over {' \" & < > a l t ; m p x}" % n,
+             "desc": "xml_encode == entity encoding, sizes; xml_decode(xml_encode(s)) == s"}
+            for n in (range(1, 3) if tier == "quick" else range(1, 5)) for mode in (0, 1)]
+
+def url_jobs(tier):
+    pats = ["L", "P", "LP", "PL", "PP", "LPL", "PLP"] if tier == "quick" else \
+           ["L", "P", "LP", "PL", "PP", "LPL", "PLP", "PPP", "LLPPLL", "PLLP", "PPLPP", "LPLPLP"]
+    return [{"name": "url-%s" % p, "src": "url.c", "defs": {"PAT": '"%s"' % p}, "unwind": 3 * len(p) + 6, "solver": "cadical",
+             "shape": "percent-encoded text with structure %s (L literal unreserved, P %%HH escape of any byte, hex case symbolic)" % p,
+             "desc": "http_url_decode(percent_encode(s)) == s, length, NUL"} for p in pats]
+
+CRCV = ["bzip2", "cksum", "mpeg2", "iso-hdlc", "jamcrc", "iscsi", "base91-d", "aixm"]
+def crc_jobs(tier):
+    out = []
+    for v, vn in enumerate(CRCV):
+        for mode, mn in ((1, "tbl256-step"), (2, "nibble-step")):
+            out.append({"name": "crc-%s-%s" % (vn, mn), "src": "crc.c", "defs": {"VAR": v, "MODE": mode, "LEN": 1},
+                        "unwind": 40, "solver": "cadical", "shape": "one byte, symbolic 32-bit state and byte",
+                        "desc": "table-driven byte step == 8 bit-at-a-time steps from the catalogue polynomial"})
+        lens = [0, 1, 2] if tier == "quick" else [0, 1, 2, 3, 4]
+        for n in lens:
+            for pn, pre in (("oneshot", "one-shot"), ("update", "update from"), ("split", "splitting")):
+                out.append({"name": "crc-%s-n%d-%s" % (vn, n, pn), "src": "crc.c", "defs": {"VAR": v, "MODE": 0, "LEN": n},
+                            "prop_include": pre, "timeout": 300 if tier == "quick" else 1500,
+                            "unwind": max(40, n + 3), "solver": "cadical", "shape": "%d symbolic bytes, symbolic previous CRC, symbolic split point" % n,
+                            "desc": "one-shot and update macros == catalogue definition; split independence"})
+        for n in ([63, 64, 65] if tier == "thorough" else [64]):
+            out.append({"name": "crc-%s-n%d-tail" % (vn, n), "src": "crc.c", "defs": {"VAR": v, "MODE": 3, "LEN": n},
+                        "unwind": n + 3, "solver": "cadical", "shape": "%d bytes: concrete pattern prefix, last 2 bytes symbolic (256-entry table path at n >= 64)" % n,
+                        "desc": "one-shot macro == catalogue definition across the small-table/large-table dispatch"})
+    return out
+
 def jobs(tier):
-    return num_jobs(tier)
+    return num_jobs(tier) + b64_jobs(tier) + hex_jobs(tier) + xml_jobs(tier) + url_jobs(tier) + crc_jobs(tier)
